@@ -176,6 +176,7 @@ func Load(name string) (*Prog, error) {
 		}
 		return a.Pos() < b.Pos()
 	})
+	p.resolveFieldRoles()
 	progCache[name] = p
 	return p, nil
 }
@@ -204,7 +205,10 @@ func (p *Prog) Func(rel, name string) *ssa.Function {
 	if pk == nil {
 		return nil
 	}
-	return pk.Func(name)
+	if f := pk.Func(name); f != nil {
+		return f
+	}
+	return p.resolveFuncRole(rel, "", name)
 }
 
 // Method looks up method name on type tname (pointer receiver method set); nil if absent.
@@ -236,7 +240,7 @@ func (p *Prog) Method(rel, tname, name string) *ssa.Function {
 			return fn
 		}
 	}
-	return nil
+	return p.resolveFuncRole(rel, tname, name)
 }
 
 // Methods lists the declared (source) methods of the named type, both receivers, sorted by name.
